@@ -203,3 +203,32 @@ func VerifC17Reconnect() {
 	vRunPending()
 	vReach("end")
 }
+
+// VerifC17LongLine: a server line longer than the reader's 4096-byte buffer whose tail, taken
+// on its own, reads like a NICK change of the client (a chat message from another user can
+// say anything). It is one PRIVMSG: the client's nick does not change, with or without
+// tracking. The filler length is chosen so that the tail starts around offset 4096.
+func VerifC17LongLine() {
+	track := vLen("track", 0, 1) == 1
+	cfg := NewConfig("me")
+	cfg.Server, cfg.Proxy, cfg.PingFreq, cfg.Flood = "srv:1", "vtest://p", 0, true
+	head := ":u!i@h PRIVMSG #c :"
+	tail := ":me!i@h NICK :hijacked"
+	fill := vFiller('x', 4096-len(head)+vLen("shift", 0, 2)-1)
+	w := vNewLiveWire(":srv 001 me :Welcome\r\n", head+fill+tail+"\r\n", ":srv NOTICE me :after\r\n")
+	vInstallDialer(&vDialer{wire: w})
+	conn := Client(cfg)
+	if track {
+		conn.EnableStateTracking()
+	}
+	msgs := 0
+	conn.HandleFunc("PRIVMSG", func(c *Conn, l *Line) { msgs++ })
+	err := conn.Connect()
+	vAssume(err == nil)
+	vRunPending()
+	vAssert(msgs == 1, "longline:delivered-as-one-message")
+	vAssert(conn.Me() != nil && conn.Me().Nick == "me", "longline:me-is-servers-nick")
+	conn.Close()
+	vRunPending()
+	vReach("end")
+}
